@@ -85,3 +85,12 @@ Proof. exact (conj order_accepted order_rejected). Qed.
 Theorem C12_nonvacuous_rejects_lock_across_dispatch :
   flat_complaints (check_program (mini mini_bad_send) mini_bad_send ["Send"; "RemoveNode"]%string [] []) = [("Send", KCallHolding, "process"); ("Send", KLockOrder, "process")]%string.
 Proof. exact bad_send_rejected. Qed.
+
+(* a wait that is not a mutex operation (sync.WaitGroup.Wait, sync.Cond.Wait, channel operations, select without default) is a
+   callback kind "wait:..." that may depend on the registry locks: under the lock it is rejected, after the unlock accepted
+   (per run: Obl_C12.v no_blocking_wait_under_registry_lock / generated_no_registry_lock_at_blocking_wait) *)
+Theorem C12_nonvacuous_rejects_wait_under_lock :
+  flat_complaints (check_program (waits_contracts [("Remove", remove_waiting)]%string) [("Remove", remove_waiting)]%string ["Remove"]%string [] [])
+    = [("Remove", KCallback, "wait:WaitGroup.Wait")]%string /\
+  check_program (waits_contracts [("Remove", remove_not_waiting)]%string) [("Remove", remove_not_waiting)]%string ["Remove"]%string [] [] = [].
+Proof. exact (conj wait_under_lock_rejected wait_after_unlock_accepted). Qed.
